@@ -351,7 +351,7 @@ func ruleRespMatch(c *RC) *RuleResult {
 	kept := 0
 	for _, e := range c.exitsOf(respStore) {
 		k := e.Killed["ctx.PreparationPayloads"]
-		if k&KillNNSender == 0 || k&KillNil != 0 {
+		if k&KillNNSender == 0 || k&KillNilAny != 0 {
 			continue // nothing stored, or the entry was removed again
 		}
 		kept++
@@ -463,6 +463,52 @@ func ruleRespMatch(c *RC) *RuleResult {
 	}
 	if okAll {
 		r.ok(reqStore.Fn.Name + ": " + strings.Join(evs, "|") + " precedes every quorum test after the proposal is stored")
+	}
+	// (3) the same for the primary's own proposal: responses that reached the primary before it proposed name some other
+	// hash (nobody could know this one); they are purged before the primary counts its preparations
+	for _, f := range c.senderOf("PrepareRequestType") {
+		root := c.phaseRoot(f)
+		r.Sites++
+		bad := ""
+		n := 0
+		for _, e := range c.exitsOf(root) {
+			if lastIndex(e.Log, "write:ctx.PreparationPayloads") < 0 {
+				continue
+			}
+			firstQ := -1
+			for i, ev := range e.Log {
+				if strings.HasPrefix(ev, "fn:") {
+					if g := c.Prog.fn(strings.TrimPrefix(ev, "fn:")); g != nil && g != root && c.reachesQuorumTest(g) && firstQ < 0 {
+						firstQ = i
+					}
+				}
+			}
+			if firstQ < 0 {
+				continue
+			}
+			n++
+			purged := false
+			for i, ev := range e.Log {
+				if i < firstQ {
+					for _, pe := range evs {
+						if ev == pe {
+							purged = true
+						}
+					}
+				}
+			}
+			if !purged {
+				bad = "{" + strings.Join(e.Trail, "; ") + "}"
+			}
+		}
+		switch {
+		case n == 0:
+			r.ok(root.Name + ": no quorum test follows the store of the own proposal")
+		case bad == "":
+			r.ok(root.Name + ": early responses naming another proposal are purged before the primary counts its preparations")
+		default:
+			r.fail(root.Name+"/own-proposal-purge", c.Prog.Pos(root.Decl), "the primary stores its own proposal and counts the preparations without first removing responses that arrived earlier and name another proposal (they cannot name this one): it commits with fewer than M preparations for its proposal on path "+bad)
+		}
 	}
 	return r
 }
